@@ -305,6 +305,11 @@ def f_cmp(p: Poly, op: str):
     if p.is_const():
         c = p.cval()
         return {"<": c < 0, "<=": c <= 0, ">": c > 0, ">=": c >= 0, "==": c == 0, "!=": c != 0}[op]
+    if op in ("==", "!="):
+        p = _strip_inverse_factor(p)
+        if p.is_const():
+            c = p.cval()
+            return (c == 0) if op == "==" else (c != 0)
     if op == ">":
         return ("cmp", "<", -p)
     if op == ">=":
@@ -312,6 +317,35 @@ def f_cmp(p: Poly, op: str):
     if op == "==":
         return ("cmp", "=", p)
     return ("cmp", op, p)
+
+
+def _strip_inverse_factor(p: Poly) -> Poly:
+    """p = q^k * p' with q an inverse variable (q*d = 1, hence q != 0) common to every monomial:
+    p == 0 iff p' == 0"""
+    kinds = CTX.kind
+    common = None
+    for m in p.t:
+        d = {v: e for v, e in m if kinds[v] == "inv"}
+        if not d:
+            return p
+        if common is None:
+            common = d
+        else:
+            common = {v: min(e, d[v]) for v, e in common.items() if v in d}
+            if not common:
+                return p
+    if not common:
+        return p
+    out = {}
+    for m, c in p.t.items():
+        dd = dict(m)
+        for v, e in common.items():
+            if dd[v] == e:
+                del dd[v]
+            else:
+                dd[v] -= e
+        out[tuple(sorted(dd.items()))] = c
+    return Poly(out)
 
 
 def f_and(*fs):
@@ -799,6 +833,10 @@ class SC:
                 return SSq(self.zs + o.zs)
             if self.is_zero():
                 return o
+        if isinstance(self, SSq) and not isinstance(self, SAbs) and o.is_zero():
+            return self
+        if _nonneg(self) and _nonneg(o):
+            return SPos(self.re + o.re)
         return SC(self.re + o.re, self.im + o.im)
 
     __radd__ = __add__
@@ -830,6 +868,8 @@ class SC:
         o = SC.lift(o)
         if not o.im.t:
             if not self.im.t:
+                if _nonneg(self) and _nonneg(o):
+                    return SPos(self.re * o.re)
                 return SC(self.re * o.re)
             return SC(self.re * o.re, self.im * o.re)
         if not self.im.t:
@@ -859,6 +899,8 @@ class SC:
         return self.re * self.re + self.im * self.im
 
     def __abs__(self):
+        if isinstance(self, (SSq, SAbs, SPos)):
+            return self
         if not self.im.t and self.re.is_const():
             return SC(Poly.const(abs(self.re.cval())))
         return SAbs(self)
@@ -877,6 +919,8 @@ class SC:
             raise ZeroDivisionError("division by constant zero in implementation")
         if not o.im.t:
             q = inv_poly(o.re)
+            if _nonneg(self) and _nonneg(o):
+                return SPos(self.re * q)
             return SC(self.re * q, self.im * q)
         d = inv_poly(o.abs2())
         n = self * o.conj()
@@ -1110,6 +1154,47 @@ class SAbs(SC):
                 return op == ">="
             return mk_bool(f_cmp(self.sq - Poly.const(c * c), op))
         return SC._cmp(self, o, op)
+
+
+class SPos(SC):
+    """a real value known to be >= 0 by construction (sums / products / quotients of squared moduli, norms and
+    non-negative constants): comparisons with 0 need no sign reasoning"""
+
+    __slots__ = ()
+
+    def __init__(self, re):
+        self.re = re
+        self.im = ZERO
+
+    def conj(self):
+        return self
+
+    conjugate = conj
+
+    @property
+    def real(self):
+        return self
+
+    def _cmp(self, o, op):
+        o = SC.lift(o)
+        if o.is_const() and o.is_real() and not isinstance(o, (SSq, SAbs)):
+            c = Fraction(o.re.cval())
+            if c < 0:
+                return {"<": False, "<=": False, ">": True, ">=": True, "==": False, "!=": True}[op]
+            if c == 0:
+                iszero = f_cmp(self.re, "==")
+                if op in ("<=", "=="):
+                    return mk_bool(iszero)
+                if op in (">", "!="):
+                    return mk_bool(f_not(iszero))
+                return op == ">="
+        return SC._cmp(self, o, op)
+
+
+def _nonneg(x):
+    if isinstance(x, (SSq, SAbs, SPos)):
+        return True
+    return x.is_const() and x.is_real() and x.re.cval() >= 0
 
 
 def sc_sqrt(x: SC) -> SC:
